@@ -49,10 +49,11 @@ for pid in ALL:
         "replay_cmd_template": "./check %s --replay {path}" % pid,
         "engine": "+".join((["verus-extract"] if s.get("verus") else []) + (["kani-contracts"] if s.get("kani") else [])),
         "level_claimed": {"category": "proof", "text": s.get("level_text", s.get("explanation", "")),
-                          "design_ref": "DESIGN.md section 5, " + pid},
+                          "design_ref": "DESIGN.md section 9 (as built) and section 5, " + pid},
         "level_note": s.get("level_note", "; ".join(s.get("trusted_base", []))),
-        "technique": s.get("technique", "contract-based deductive verification (Verus on extracted real functions"
-                                        + (" + Kani full-domain harnesses on the real crate)" if s.get("kani") else ")")),
+        "technique": s.get("technique", "contract-based deductive verification (" + " + ".join(
+            (["Verus on extracted real functions"] if s.get("verus") else []) +
+            (["Kani function contracts / full-domain harnesses on the real crate"] if s.get("kani") else [])) + ")"),
     })
 json.dump(M, open(os.path.join(ROOT, "MANIFEST.json"), "w"), indent=1)
 print("MANIFEST: %d checks, %d not_applicable" % (len(M["checks"]), len(M["not_applicable"])))
